@@ -15,7 +15,7 @@ import (
 
 func main() {
 	r := vlib.Start("C07", "exploration")
-	r.Rule("each case builds one collider (primitive, triangle, mesh collider in 4 constructions, joined, profile, transformed, solid-sampling; 2D and 3D) with seeded parameters and drives seeded rays (origins inside / near the surface / on the bounding box / far away / on a dyadic grid; directions aimed, isotropic, exactly axis-aligned, with zero components, grazing, scaled 1e-3..1e3), balls (grid and near-surface centres, radii 1e-3..10 sizes, many within 1e-6 of touching), containment points and segment/box/triangle queries; the reference is an independent closed-form surface model. A ray is non-trivial when it is in general position and the reference has >= 2 hits; distinct by hash of (API, origin, direction)")
+	r.Rule("each case builds one collider (primitive, triangle, mesh collider in 4 constructions, joined, profile, transformed, solid-sampling; 2D and 3D) with seeded parameters and drives seeded rays (origins inside / near the surface / on the bounding box / far away / on a dyadic grid; directions aimed, isotropic, exactly axis-aligned, with zero components, grazing, scaled 1e-3..1e3), balls (grid and near-surface centres, radii 1e-3..10 sizes, many within 1e-6 of touching), containment points and segment/box/triangle queries; the reference is an independent closed-form surface model. A ray is non-trivial when it is in general position and the reference has >= 2 hits (counter rays_nontrivial); distinct_nontrivial registers at most 4 such rays per case, distinct by hash of (API, origin, direction). A violation key is reported once per case: the count printed with a key is the number of cases (collider instances) in which it fired")
 	r.Assume("reference surfaces (verif/vlib/c07ref) are exact up to rounding; they are self-checked per ray (every reference hit has |SDF|<=1e-8*size, hit parity equals reference membership) and by go test ./vlib/c07ref")
 	r.Assume("count/parity/hit-set clauses are decided only for rays in general position: origin >=1e-6*size from the surface, every reference hit with |d.n|>=1e-3, >=1e-6*size from edges/rims/apex, consecutive hits >=1e-6*size apart, and the reference hit count unchanged under six parallel shifts of 1e-6*size")
 	r.Assume("touching tests are undecided within 1e-9*(size+r+distance) of equality; segment/box/triangle queries within 1e-7*size of a change of answer")
@@ -46,12 +46,22 @@ func main() {
 		"model2d.Circle", "model2d.Rect", "model2d.Capsule", "model2d.Segment", "model2d.MeshToCollider", "model2d.JoinedCollider"} {
 		r.Require(api+".rays_general", 100)
 	}
+	for _, t := range []string{"Translate", "Scale", "Rotation", "Joined"} {
+		r.Require("model3d.TransformCollider["+t+"].rays", 100)
+		r.Require("model2d.TransformCollider["+t+"].rays", 100)
+	}
+	for _, b := range []string{"Circle", "Rect", "Capsule", "TriangleCW", "Mesh"} {
+		r.Require("model3d.ProfileCollider["+b+"].rays_general", 100)
+	}
+	r.Require("profile.special_rays", 1000)
+	r.Require("empty.colliders_checked", 100)
+	r.Require("rays_nontrivial", 10000)
 	r.Finish()
 }
 
 // empty colliders (no faces) must answer "nothing" to everything.
 func empty(r *vlib.Run) {
-	r.Section("empty", r.N(60, 600), vlib.SectionOpts{}, func(c *vlib.Case) {
+	section(r, "empty", r.N(60, 600), func(c *kase) {
 		rng := c.Rng
 		o, d := V3{rng.NormFloat64(), rng.NormFloat64(), rng.NormFloat64()}, randUnit3(rng).Scale(logUniform(rng, -3, 3))
 		if rng.Intn(3) == 0 {
@@ -105,7 +115,7 @@ func empty(r *vlib.Run) {
 }
 
 func prim3d(r *vlib.Run) {
-	r.Section("prim3d", r.N(9000, 100000), vlib.SectionOpts{}, func(c *vlib.Case) {
+	section(r, "prim3d", r.N(13500, 270000), func(c *kase) {
 		s := primitive3(c.Rng, c.Index%6)
 		exercise3(c, s, 50, 25, 8)
 		if c.Index < 6 {
@@ -137,7 +147,7 @@ func randomTriangle3(rng *rand.Rand) [3]V3 {
 }
 
 func tri3d(r *vlib.Run) {
-	r.Section("tri3d", r.N(4500, 50000), vlib.SectionOpts{}, func(c *vlib.Case) {
+	section(r, "tri3d", r.N(6750, 135000), func(c *kase) {
 		rng := c.Rng
 		t := randomTriangle3(rng)
 		rm := ref.NewMesh("triangle", [][3]V3{t}, nil)
@@ -160,7 +170,7 @@ func tri3d(r *vlib.Run) {
 }
 
 func mesh3d(r *vlib.Run) {
-	r.Section("mesh3d", r.N(3000, 32000), vlib.SectionOpts{}, func(c *vlib.Case) {
+	section(r, "mesh3d", r.N(4500, 90000), func(c *kase) {
 		rng := c.Rng
 		m := randomRawMesh(rng).placed(rng)
 		if !m.certify() {
@@ -175,10 +185,10 @@ func mesh3d(r *vlib.Run) {
 }
 
 func wrappers3d(r *vlib.Run) {
-	r.Section("joined3d", r.N(2500, 28000), vlib.SectionOpts{}, func(c *vlib.Case) {
+	section(r, "joined3d", r.N(3750, 75000), func(c *kase) {
 		exercise3(c, joinedSubject3(c.Rng), 40, 20, 6)
 	})
-	r.Section("transform3d", r.N(3000, 32000), vlib.SectionOpts{}, func(c *vlib.Case) {
+	section(r, "transform3d", r.N(4500, 90000), func(c *kase) {
 		s := transformedSubject3(c.Rng)
 		if s == nil {
 			c.Count("generator.transform_not_similarity", 1)
@@ -186,7 +196,7 @@ func wrappers3d(r *vlib.Run) {
 		}
 		exercise3(c, s, 30, 15, 5)
 	})
-	r.Section("profile3d", r.N(4500, 50000), vlib.SectionOpts{}, func(c *vlib.Case) {
+	section(r, "profile3d", r.N(6750, 135000), func(c *kase) {
 		s := profileSubject3(c.Rng)
 		if s == nil {
 			c.Count("generator.profile_skipped", 1)
@@ -202,9 +212,11 @@ func wrappers3d(r *vlib.Run) {
 }
 
 func solid3d(r *vlib.Run) {
-	// sequential with a seeded global RNG: SolidCollider draws its normal
-	// estimates from math/rand
-	r.Section("solidcollider", r.N(600, 6000), vlib.SectionOpts{Sequential: true, SeedGlobalRand: true}, func(c *vlib.Case) {
+	// SolidCollider draws its normal estimates from the global math/rand, so the
+	// estimated normals (only) differ between runs; counts and hit positions,
+	// which are what is compared with the reference, do not depend on it. The
+	// one clause on those normals is a bound with failure probability < 1e-30.
+	section(r, "solidcollider", r.N(2250, 45000), func(c *kase) {
 		s := solidSubject3(c.Rng)
 		for i := 0; i < 25; i++ {
 			o, d := genRay3(c.Rng, s)
@@ -218,18 +230,18 @@ func solid3d(r *vlib.Run) {
 }
 
 func prim2d(r *vlib.Run) {
-	r.Section("prim2d", r.N(6000, 66000), vlib.SectionOpts{}, func(c *vlib.Case) {
+	section(r, "prim2d", r.N(9000, 180000), func(c *kase) {
 		exercise2(c, primitive2(c.Rng, c.Index%4), 50, 25, 8)
 	})
 }
 
 func mesh2d(r *vlib.Run) {
-	r.Section("segment2d", r.N(2000, 22000), vlib.SectionOpts{}, func(c *vlib.Case) {
+	section(r, "segment2d", r.N(3000, 60000), func(c *kase) {
 		s := segmentSubject2(c.Rng)
 		exercise2(c, s, 40, 25, 0)
 		checkMulti2(c, s, 15)
 	})
-	r.Section("mesh2d", r.N(3000, 32000), vlib.SectionOpts{}, func(c *vlib.Case) {
+	section(r, "mesh2d", r.N(4500, 90000), func(c *kase) {
 		s := meshSubject2(c.Rng, c.Index%3)
 		if s == nil {
 			c.Count("generator.polygon_not_certified", 1)
@@ -241,10 +253,10 @@ func mesh2d(r *vlib.Run) {
 }
 
 func wrappers2d(r *vlib.Run) {
-	r.Section("joined2d", r.N(1500, 16000), vlib.SectionOpts{}, func(c *vlib.Case) {
+	section(r, "joined2d", r.N(2250, 45000), func(c *kase) {
 		exercise2(c, joinedSubject2(c.Rng), 40, 20, 6)
 	})
-	r.Section("transform2d", r.N(2500, 28000), vlib.SectionOpts{}, func(c *vlib.Case) {
+	section(r, "transform2d", r.N(3750, 75000), func(c *kase) {
 		s := transformedSubject2(c.Rng)
 		if s == nil {
 			c.Count("generator.transform_not_similarity", 1)
